@@ -533,6 +533,11 @@ where
                         // is durable — durable_index may exceed max_index after truncation,
                         // which would cause flush() to short-circuit before the replace lands.
                         self.remove_range(diverge_index..=u64::MAX);
+                        // The removed suffix frees its indexes: the next pre-allocated id must
+                        // not stay above the truncation point (insert_to_memory below raises it
+                        // past the replacement entries), otherwise a node that later becomes
+                        // leader appends after a hole and can never replicate past it.
+                        self.next_id.fetch_min(diverge_index, Ordering::AcqRel);
                         // Everything from diverge_index on is being replaced and is not on
                         // disk yet: the durable mark must not stay above it, otherwise the IO
                         // task, which persists (durable_index, max_index], would never write
